@@ -128,7 +128,7 @@ def oracle(ctx, stores):
 
 
 def run(ctx):
-    generic.run(ctx, "C02", ["live"], dict(conforming=40, flow=100, random=60, injected=40, loopfn=120, handlers=60, cutflow=30), oracle=oracle, what="liveness")
+    generic.run(ctx, "C02+C02pipe", ["live"], dict(conforming=40, flow=100, random=60, injected=40, loopfn=120, handlers=60, cutflow=30), oracle=oracle, what="liveness")
 
 
 replay = generic.replay
